@@ -49,6 +49,9 @@ def main(argv=None):
     many = [SR.many_family_input(rng, rng.randint(2, 3), rng.randint(2, 3), rng.randint(9, 10)) for _ in range(6 if tier == "quick" else 40)]
     sections.append(("2-3 leaves x 9-10 families in one common order (synteny masks wider than a byte), dup/hgt/sloss symbolic",
                      [(d, SR.runs_for(algos, ["any"], FLAGS, "dhs", inf_too=False)) for d in many], False))
+    sim = SR.simulated_inputs(rng, 50 if tier == "quick" else 600, 5, 4, 4, True)
+    sections.append(("inputs simulated forward from the event model (segment losses, gains below the root), dup/hgt/sloss symbolic",
+                     [(d, SR.runs_for(algos, ["any"], FLAGS, "dhs", inf_too=False)) for d in sim], False))
     if tier == "thorough":
         # one structural family completely: caterpillar object tree on 4 leaves, each leaf in its own species of a caterpillar species tree,
         # every non-empty subset of 4 families (in one common order) on every leaf: 15^4 inputs
